@@ -16,9 +16,15 @@ Only `Tag`, `mkTag`, `versionNodot` and the string constants are shared with the
 namespace TagSpec
 open Py Tags
 
-/-- the ABIs "given" besides the two that have a fixed position -/
+/-- `l` without the first occurrence of `x` -/
+def dropFirst (x : Str) : List Str → List Str
+  | [] => []
+  | a :: t => if a = x then t else a :: dropFirst x t
+
+/-- the ABIs "given" besides the two that have a fixed position: an explicitly listed `abi3` / `none`
+    is taken out (once), since it is yielded at its normal position -/
 def givenAbis (abis : List Str) : List Str :=
-  abis.filter fun a => a != sAbi3 && a != sNone
+  dropFirst sNone (dropFirst sAbi3 abis)
 
 /-- a free-threaded CPython ABI name: `cp`, at least one digit, then flags containing `t`
     (flags end at a line break) -/
